@@ -175,6 +175,24 @@ PROPS["C15"] = dict(
                                  "levels above what the host CPU supports cannot be simulated"],
 )
 
+PROPS["C09"] = dict(
+    level="exploration",
+    variants=dict(quick=[("asan", 1)], thorough=[("asan", 3), ("fixed-asan", 1)]),
+    must_build=["asan"],
+    runs=dict(quick=4000, thorough=100000), secs=dict(quick=55, thorough=700),
+    rule="one evaluation = one simulated call over a lossy link: a live encoder (FEC-capable SILK / hybrid settings over-represented, all modes present, DTX off) whose packets each carry a link fault decision "
+         "(iid, Gilbert-Elliott bursts, periodic, every 12-bit sliding-window pattern sampled, long bursts up to 10 s, loss right after a mode / configuration transition; late and duplicate packets are discarded by the jitter buffer), "
+         "played out through three real decoders: L (faulty link, seeded play-out policy: FEC from the next packet when it has arrived - also with a frame_size larger than the packet's - else PLC in one call or in 2.5-20 ms pieces), "
+         "P (same link, concealment only) and R (loss-free twin); exact oracles: requested counts, finite output, BAD_ARG for non-2.5 ms sizes, every received packet ends with the encoder's final range on L and P; "
+         "calibrated oracles with stated preconditions: concealed peak bounded by the recent level, decay after >= 1 s of loss (decay-probe sessions), FEC error well below PLC error on isolated losses with LBRR (FEC-probe sessions), "
+         "reconvergence to R within 250 ms after faults stop for CELT-only streams (SILK / hybrid reconvergence is recorded as a probe only); non-trivial = at least one loss fired and >=5 calls succeeded; distinct = signature over the (TOC config, FEC / PLC, next-arrived) sequence of the lost packets",
+    fault_keys=["f_drop", "f_burst", "f_late", "f_dup_discarded", "f_after_transition"],
+    probes_required=["rx_lost", "rx_received", "plc_calls", "plc_in_pieces", "fec_with_lbrr", "fec_without_lbrr", "fec_larger_frame_size", "bounded_checked", "decay_checked", "fec_gain_checked", "recovery_checked_celt", "recovery_checked_flushed", "odd_frame_size_checked", "mode_silk", "mode_hybrid", "mode_celt"],
+    real=REAL_CODEC, simulated=SIM_COMMON + ["lossy link (loss patterns attached per packet)", "jitter buffer / play-out policy", "three receiver replicas (faulty, concealment-only, loss-free twin)"],
+    assumptions=ASSUME_COMMON + ["the numeric clauses (bounded, decay, FEC gain, recovery) are calibrated with preconditions (calib/thresholds.json C09.*): unconditioned they are not true of a healthy IIR decoder",
+                                 "perceptual quality of concealment is not judged"],
+)
+
 # ---- MANIFEST texts (bin/mkmanifest)
 _TECH = "deterministic simulation with fault injection: "
 _NOTE = "seeded sampling, not proof; trusted: the simulator's oracles and models, the compilers/sanitizers; DRED/OSCE/custom modes not built. "
@@ -218,3 +236,7 @@ PROPS["C15"].update(
     level_text="seeded search over sessions replicated at every simulated CPU feature level: the level each object sees at init is owned by the simulator; fixed-point replicas must agree bit for bit (packets and PCM, including concealment), float replicas on final ranges and counts; upstream asm self-checks armed in the thorough tier",
     level_note=_NOTE + "whole-codec clause only; the per-kernel clause over all argument shapes is not decided by this technique (pure-function comparison)",
     technique=_TECH + "CPU feature level as simulator-owned environment nondeterminism (link-time seam), replica-equality oracle across levels, loss faults for the concealment kernels")
+PROPS["C09"].update(
+    level_text="seeded search over loss patterns and play-out policies on a simulated lossy link between a live encoder and three decoder replicas (faulty link with FEC/PLC policy, concealment-only, loss-free twin); exact oracles on counts, finiteness, final ranges and argument validation; calibrated, pre-conditioned oracles for boundedness, decay, FEC gain and bounded-liveness reconvergence after faults stop",
+    level_note=_NOTE + "numeric clauses are calibrated against the unchanged tree with explicit preconditions; loss patterns are sampled, the 2^12 window space is not enumerated",
+    technique=_TECH + "loss / burst / late-arrival faults on a simulated link, loss-free twin replica as reference, bounded-liveness recovery oracle")
